@@ -42,7 +42,7 @@ func (x *Exec) symParam(name string, t types.Type, nonNil bool) Val {
 	c := x.sc.declConst("p_"+sanitize(name), x.so.sortOf(t))
 	v := Val{T: t, S: c}
 	x.assumeRange(v)
-	switch u := types.Unalias(t).Underlying().(type) {
+	switch u := under(t).(type) {
 	case *types.Pointer, *types.Map, *types.Chan:
 		_ = u
 		if nonNil {
@@ -140,39 +140,10 @@ func (e *Engine) verifyFunc(key string, against *FuncContract, prefix string) (r
 		x.sc.obls = nil
 		return
 	}
-	rets, st, reach := x.run(fn, args, nil, x.old.clone(), "true", true, fn.Pos())
-	// postconditions
-	penv := &Env{vars: map[string]Val{}, cur: st, old: x.old, pkg: fn.Pkg.Pkg, x: x, freshLo: "allocBase0"}
-	for n, v := range env.vars {
-		penv.vars[n] = v
-	}
-	resT := fn.Signature.Results()
-	for i := 0; i < resT.Len() && i < len(rets); i++ {
-		penv.vars[fmt.Sprintf("ret%d", i)] = rets[i]
-		if n := resT.At(i).Name(); n != "" && n != "_" {
-			penv.vars[n] = rets[i]
-		}
-		if i < len(fc.Results) {
-			penv.vars[fc.Results[i]] = rets[i]
-		}
-		if isErrorType(resT.At(i).Type()) {
-			if _, ok := penv.vars["err"]; !ok {
-				penv.vars["err"] = rets[i]
-			}
-		}
-	}
-	if len(rets) == 1 {
-		penv.vars["result"] = rets[0]
-	}
+	x.entryEnv = env
+	x.against = against != nil
+	_, st, reach := x.run(fn, args, nil, x.old.clone(), "true", true, fn.Pos())
 	x.curPos = fn.Pos()
-	if fc.Def != nil && len(rets) == 1 && against == nil {
-		d := x.tr(fc.Def, env)
-		x.oblige("post", "def", implies(reach, eq(rets[0].S, d.S)), fn.Pos(), "result == "+fc.Def.cstr())
-	}
-	for i, en := range fc.Ensures {
-		t := x.trBool(en.Expr, penv)
-		x.oblige("post", labelOr(en.Label, i), implies(reach, t), fn.Pos(), en.Text)
-	}
 	if !fc.Flags["noframe"] {
 		x.frameCheck(fc, env, st, reach)
 	}
@@ -228,7 +199,7 @@ func (x *Exec) frameCheck(fc *FuncContract, env *Env, st *State, reach Term) {
 		case *CUn:
 			p := x.tr(t.X, env)
 			if p.L == nil {
-				pt := types.Unalias(p.T).Underlying().(*types.Pointer)
+				pt := under(p.T).(*types.Pointer)
 				if si := x.so.structOf(pt.Elem()); si != nil {
 					for i := range si.Fields {
 						k, _ := x.fieldKey(si, i)
@@ -242,7 +213,7 @@ func (x *Exec) frameCheck(fc *FuncContract, env *Env, st *State, reach Term) {
 		case *CCall:
 			if id, ok := t.Fun.(*CIdent); ok && id.Name == "elems" {
 				s := x.tr(t.Args[0], env)
-				switch u := types.Unalias(s.T).Underlying().(type) {
+				switch u := under(s.T).(type) {
 				case *types.Slice:
 					k, _ := x.elemKey(u.Elem())
 					regions[k] = append(regions[k], app("s_reg", s.S))
